@@ -35,11 +35,15 @@ type C01Op struct {
 }
 
 type C01Case struct {
-	Depth   int       `json:"depth,omitempty"`
-	Scripts [][]C01Op `json:"scripts"` // one script per goroutine; goroutine g owns route /g<g>
-	Label   string    `json:"label"`
-	Nth     int       `json:"nth"`
-	Reopen  string    `json:"reopen,omitempty"` // label at which a second child dies while re-opening the db
+	Depth int `json:"depth,omitempty"`
+	// Drop: "" = reject, "drop_oldest" (then queued messages may legitimately disappear, leased ones never)
+	Drop string `json:"drop,omitempty"`
+	// Delivered: delivered retention is on (an acked message stays stored as delivered)
+	Delivered bool      `json:"delivered,omitempty"`
+	Scripts   [][]C01Op `json:"scripts"` // one script per goroutine; goroutine g owns route /g<g>
+	Label     string    `json:"label"`
+	Nth       int       `json:"nth"`
+	Reopen    string    `json:"reopen,omitempty"` // label at which a second child dies while re-opening the db
 }
 
 var c01Labels = []string{"sqlite.begin", "sqlite.commit.before", "sqlite.commit.after", "sqlite.enqueue.insert.before", "sqlite.enqueue.insert.after",
@@ -57,12 +61,20 @@ func c01Payload(id string, n int) []byte {
 func genC01Case() *rapid.Generator[C01Case] {
 	return rapid.Custom(func(t *rapid.T) C01Case {
 		var c C01Case
-		c.Depth = rapid.SampledFrom([]int{0, 0, 0, 1000}).Draw(t, "depth")
+		c.Depth = rapid.SampledFrom([]int{0, 0, 0, 1000, 1, 2, 3}).Draw(t, "depth")
+		if c.Depth > 0 && c.Depth < 1000 && rapid.Bool().Draw(t, "drop_oldest") {
+			c.Drop = "drop_oldest"
+		}
+		drop := c.Drop
+		c.Delivered = rapid.IntRange(0, 3).Draw(t, "delivered_retention") == 0
 		g := rapid.IntRange(1, 4).Draw(t, "goroutines")
 		for gi := 0; gi < g; gi++ {
 			seq := 0
 			opGen := rapid.Custom(func(t *rapid.T) C01Op {
 				k := rapid.SampledFrom([]string{"enq", "enq", "enq", "enqb", "enqb", "deq", "deq", "deq", "ack", "ack", "nack", "dead", "ackb", "nackb", "cancel", "requeue", "deldead", "ckpt"}).Draw(t, "k")
+				if k == "cancel" && drop == "drop_oldest" {
+					k = "nack" // a cancel of a message that may have been evicted has no predictable outcome
+				}
 				op := C01Op{K: k}
 				switch k {
 				case "enq":
@@ -85,7 +97,20 @@ func genC01Case() *rapid.Generator[C01Case] {
 				}
 				return op
 			})
-			c.Scripts = append(c.Scripts, rapid.SliceOfN(opGen, 3, 25).Draw(t, "script"))
+			script := rapid.SliceOfN(opGen, 3, 25).Draw(t, "script")
+			if gi == 0 && c.Depth > 0 && c.Depth < 1000 && rapid.Bool().Draw(t, "full_motif") {
+				// fill the queue, lease everything, offer one more (refused, or admitted by eviction), settle
+				var pre []C01Op
+				for i := 0; i < c.Depth; i++ {
+					seq++
+					pre = append(pre, C01Op{K: "enq", IDs: []string{fmt.Sprintf("g%d-%d", gi, seq)}, Pay: 1})
+				}
+				seq++
+				pre = append(pre, C01Op{K: "deq", N: 5}, C01Op{K: "enq", IDs: []string{fmt.Sprintf("g%d-%d", gi, seq)}, Pay: 1},
+					C01Op{K: rapid.SampledFrom([]string{"ack", "nack", "dead", "ackb"}).Draw(t, "settle"), N: 1})
+				script = append(pre, script...)
+			}
+			c.Scripts = append(c.Scripts, script)
 		}
 		c.Label = rapid.SampledFrom(c01Labels).Draw(t, "label")
 		c.Nth = rapid.SampledFrom([]int{1, 1, 2, 3, 5, 8, 13, 21}).Draw(t, "nth")
@@ -138,7 +163,15 @@ func TestChild_C01_Store(t *testing.T) {
 		logf.Write(append(b, '\n'))
 		logMu.Unlock()
 	}
-	store, err := NewSQLiteStore(dbPath, WithSQLiteQueueLimits(c.Depth, "reject"), WithSQLiteCheckpointInterval(0))
+	policy := "reject"
+	if c.Drop != "" {
+		policy = c.Drop
+	}
+	opts := []SQLiteOption{WithSQLiteQueueLimits(c.Depth, policy), WithSQLiteCheckpointInterval(0)}
+	if c.Delivered {
+		opts = append(opts, WithSQLiteDeliveredRetention(24*time.Hour))
+	}
+	store, err := NewSQLiteStore(dbPath, opts...)
 	if err != nil {
 		os.Exit(4)
 	}
@@ -269,8 +302,12 @@ func cloneModel(m map[string]c01Msg) map[string]c01Msg {
 // applyC01 applies one acknowledged (or hypothetically completed) op to the model. For the
 // in-flight op the result is unknown, so ops whose effect depends on the result are applied
 // in their "fully applied" form by the caller only when that form is determined by the model.
-func applyC01(m map[string]c01Msg, g int, op C01Op, l ackLine, acked bool) {
+func applyC01(m map[string]c01Msg, g int, op C01Op, l ackLine, acked bool, keepDelivered ...bool) {
 	route := fmt.Sprintf("/g%d", g)
+	ackedState := "gone"
+	if len(keepDelivered) > 0 && keepDelivered[0] {
+		ackedState = "delivered"
+	}
 	switch op.K {
 	case "enq":
 		if !acked || l.Err == "" {
@@ -297,7 +334,7 @@ func applyC01(m map[string]c01Msg, g int, op C01Op, l ackLine, acked bool) {
 				if x.state == "leased" && x.lease == lease {
 					switch op.K {
 					case "ack", "ackb":
-						x.state = "gone"
+						x.state, x.lease = ackedState, ""
 					case "nack", "nackb":
 						x.state, x.lease = "queued", ""
 					default:
@@ -406,7 +443,12 @@ func runC01Store(c C01Case, _ bool) qOutcome {
 	// ---- reopen in-process
 	clk := &qClock{}
 	clk.set(int64(time.Since(qT0))) // the child used the wall clock: continue from now
-	st, err := NewSQLiteStore(dbPath, WithSQLiteNowFunc(clk.Now), WithSQLiteCheckpointInterval(0))
+	ropts := []SQLiteOption{WithSQLiteNowFunc(clk.Now), WithSQLiteCheckpointInterval(0)}
+	if c.Delivered {
+		ropts = append(ropts, WithSQLiteDeliveredRetention(24*time.Hour))
+		labels["delivered-retention"] = true
+	}
+	st, err := NewSQLiteStore(dbPath, ropts...)
 	if err != nil {
 		out.Failure = fail("C01", "reopen-failed", 0, "the queue refuses to open after a crash at %s:%d: %v", c.Label, c.Nth, err)
 		return finish()
@@ -457,7 +499,7 @@ func runC01Store(c C01Case, _ bool) qOutcome {
 				break
 			}
 			if d, ok := ph["d"]; ok {
-				applyC01(base, g, op, d, true)
+				applyC01(base, g, op, d, true, c.Delivered)
 				acked++
 				continue
 			}
@@ -469,7 +511,7 @@ func runC01Store(c C01Case, _ bool) qOutcome {
 				alt = nil // handled below: up to N ready messages of the route may have been leased as one atomic batch
 				inflightDeq = true
 			} else {
-				applyC01(alt, g, op, s, false)
+				applyC01(alt, g, op, s, false, c.Delivered)
 			}
 			labels["inflight-"+op.K] = true
 			break
@@ -483,6 +525,10 @@ func runC01Store(c C01Case, _ bool) qOutcome {
 					if ok {
 						return fmt.Sprintf("%s should be gone (acknowledged removal) but is stored as %s", id, fmtMsg(m))
 					}
+					continue
+				}
+				if !ok && x.state == "queued" && c.Drop == "drop_oldest" {
+					labels["queued-maybe-evicted"] = true
 					continue
 				}
 				if !ok {
@@ -555,6 +601,10 @@ func runC01Store(c C01Case, _ bool) qOutcome {
 	for id, m := range snap {
 		if (m.State == "queued" || m.State == "leased") && !offered[id] {
 			out.Failure = fail("C01,C05", "not-offered-again", 0, "after restart %s (%s) was never offered again", id, m.State)
+			return finish()
+		}
+		if (m.State == "delivered" || m.State == "dead" || m.State == "canceled") && offered[id] {
+			out.Failure = fail("C01,C02", "settled-offered-again", 0, "after restart and lease expiry %s, which was settled as %s before the crash, was handed out again", id, m.State)
 			return finish()
 		}
 	}
